@@ -11,6 +11,63 @@ import loops
 import recursion
 
 
+def check_load_paths(chk, prog, eff, R_window="C01.window", R_drain="C01.drain", R_outcome="C01.outcome", floor=20):
+    """cbor_load: the decoder is given a consistent remainder window; every NULL-returning path that follows a decoder call
+    leaves the drain loop on the stack-empty edge, each round releasing the top item and popping its record; the only non-NULL
+    result is the root.  Rules may be None (not reported under that name)."""
+    class _Sel:
+        def ob(self, rule, *a, **k):
+            if rule is not None:
+                chk.ob(rule, *a, **k)
+
+        def floor(self, rule, *a, **k):
+            if rule is not None:
+                chk.floor(rule, *a, **k)
+    sel = _Sel()
+    # 3/4. cbor_load: window, drain, outcome
+    f = prog.fn("cbor_load")
+    where = "%s:%d" % (f.file, f.line)
+    SRC, SIZE = ("arg", f.param_index("source")), ("arg", f.param_index("source_size"))
+    size_off = prog.field_offset("_cbor_stack", "size")
+    item_off = prog.field_offset("_cbor_stack_record", "item")
+    root_off = prog.field_offset("_cbor_decoder_context", "root")
+    ps = P.Executor(prog, eff, loop_bound=2, inline=O.static_callees(prog, eff, "cbor_load")).run("cbor_load")
+    ndr = 0
+    for k, pa in enumerate(ps):
+        decs = pa.calls("cbor_stream_decode")
+        for i, d in enumerate(decs):
+            a_src, a_size = d.args[1], d.args[2]
+            if a_src == SRC or (a_src[0] == "idx" and a_src[1] == SRC and a_src[3] == (("c", 0),)):
+                ok = a_size == SIZE
+            else:
+                ok = a_src[0] == "idx" and a_src[1] == SRC and a_size == ("op", "sub", "i64", SIZE, a_src[3][0])
+            sel.ob(R_window, "path %d call %d" % (k, i), ok, d.ins.loc(), fn=f.name, key="win:%d:%d" % (k, i))
+        if pa.ret == ("c", 0) and decs:
+            # stack-size facts after the last decoder call
+            idx = max(i for i, e in enumerate(pa.events) if e is decs[-1])
+            nf = decs[-1].nfacts
+            szf = [(t, truth) for t, truth, _ in pa.facts[nf:] if t[0] == "icmp" and t[1] == "ugt" and t[3] == ("c", 0)
+                   and isinstance(t[2], tuple) and t[2][0] == "ld" and t[2][2] == size_off and t[2][1][0] == "alloca"]
+            tail = pa.events[idx + 1:]
+            pops = [e for e in tail if e.kind == "call" and e.callee == "_cbor_stack_pop"]
+            drefs = [e for e in tail if e.kind == "call" and e.callee == "cbor_decref"]
+            # each drain iteration: decref(&top->item) then pop
+            ok = bool(szf) and szf[-1][1] is False and len(pops) == len(drefs) and \
+                all(ptr_key(d.args[0])[1] == item_off or _pointee_is_field(d, item_off) for d in drefs)
+            # number of iterations taken = number of True facts after the error label; with the bound of the unrolling
+            ndr += 1
+            sel.ob(R_drain, "path %d: NULL after %d decoder call(s): %d frame(s) released, loop left on the empty-stack edge"
+                   % (k, len(decs), len(pops)), ok, where, fn=f.name, key="drain:%d" % k,
+                   detail="" if ok else "stack tests after failure: %s; pops %d, releases %d" % ([tr for _, tr in szf], len(pops), len(drefs)),
+                   path=pa.block_lines() if not ok else None)
+        elif pa.ret != ("c", 0):
+            r = pa.ret
+            ok = isinstance(r, tuple) and r[0] == "ld" and r[2] == root_off and r[1][0] == "alloca"
+            sel.ob(R_outcome, "path %d: non-NULL result is context.root" % k, ok, where, fn=f.name, key="root:%d" % k)
+    sel.floor(R_drain, "failure paths after a decoder call", ndr, floor)
+
+
+
 def check_push_positive(chk, rule, prog, cache):
     """pushes: a definite container is given a stack frame only with a positive outstanding count (an empty one is complete
     at once and occupies no nesting level); the counts themselves are C02.counter"""
@@ -171,47 +228,7 @@ def run(ctx, chk):
     chk.floor("C01.memcpy", "bulk copy sites on paths", nm, 40)
 
     # 3/4. cbor_load: window, drain, outcome
-    f = prog.fn("cbor_load")
-    where = "%s:%d" % (f.file, f.line)
-    SRC, SIZE = ("arg", f.param_index("source")), ("arg", f.param_index("source_size"))
-    size_off = prog.field_offset("_cbor_stack", "size")
-    item_off = prog.field_offset("_cbor_stack_record", "item")
-    root_off = prog.field_offset("_cbor_decoder_context", "root")
-    ps = P.Executor(prog, eff, loop_bound=2, inline=O.static_callees(prog, eff, "cbor_load")).run("cbor_load")
-    ndr = 0
-    for k, pa in enumerate(ps):
-        decs = pa.calls("cbor_stream_decode")
-        for i, d in enumerate(decs):
-            a_src, a_size = d.args[1], d.args[2]
-            if a_src == SRC or (a_src[0] == "idx" and a_src[1] == SRC and a_src[3] == (("c", 0),)):
-                ok = a_size == SIZE
-            else:
-                ok = a_src[0] == "idx" and a_src[1] == SRC and a_size == ("op", "sub", "i64", SIZE, a_src[3][0])
-            chk.ob("C01.window", "path %d call %d" % (k, i), ok, d.ins.loc(), fn=f.name, key="win:%d:%d" % (k, i))
-        if pa.ret == ("c", 0) and decs:
-            # stack-size facts after the last decoder call
-            idx = max(i for i, e in enumerate(pa.events) if e is decs[-1])
-            nf = decs[-1].nfacts
-            szf = [(t, truth) for t, truth, _ in pa.facts[nf:] if t[0] == "icmp" and t[1] == "ugt" and t[3] == ("c", 0)
-                   and isinstance(t[2], tuple) and t[2][0] == "ld" and t[2][2] == size_off and t[2][1][0] == "alloca"]
-            tail = pa.events[idx + 1:]
-            pops = [e for e in tail if e.kind == "call" and e.callee == "_cbor_stack_pop"]
-            drefs = [e for e in tail if e.kind == "call" and e.callee == "cbor_decref"]
-            # each drain iteration: decref(&top->item) then pop
-            ok = bool(szf) and szf[-1][1] is False and len(pops) == len(drefs) and \
-                all(ptr_key(d.args[0])[1] == item_off or _pointee_is_field(d, item_off) for d in drefs)
-            # number of iterations taken = number of True facts after the error label; with the bound of the unrolling
-            ndr += 1
-            chk.ob("C01.drain", "path %d: NULL after %d decoder call(s): %d frame(s) released, loop left on the empty-stack edge"
-                   % (k, len(decs), len(pops)), ok, where, fn=f.name, key="drain:%d" % k,
-                   detail="" if ok else "stack tests after failure: %s; pops %d, releases %d" % ([tr for _, tr in szf], len(pops), len(drefs)),
-                   path=pa.block_lines() if not ok else None)
-        elif pa.ret != ("c", 0):
-            r = pa.ret
-            ok = isinstance(r, tuple) and r[0] == "ld" and r[2] == root_off and r[1][0] == "alloca"
-            chk.ob("C01.outcome", "path %d: non-NULL result is context.root" % k, ok, where, fn=f.name, key="root:%d" % k)
-    chk.floor("C01.drain", "failure paths after a decoder call", ndr, 20)
-
+    check_load_paths(chk, prog, eff)
     # 5. loops and recursion
     nl = 0
     for g in prog.lib_funcs():
@@ -297,38 +314,106 @@ def run(ctx, chk):
     okv = all(q.ret == ("c", 1) for q in cache.get(av.name))
     chk.ob("C01.frame-invariants", "_cbor_map_add_value returns true on every path", okv, "%s:%d" % (av.file, av.line), fn=av.name, key="addvalue")
     check_push_positive(chk, "C01.frame-invariants", prog, cache)
+    # count <= length, whatever the loop looks like: some loop-carried quantity of the byte loop is tied to the (source, length)
+    # window - an index, a cursor, a remaining-count - moves by at least one byte on every way round the loop and never leaves the
+    # window (window dataflow), and the counter the routine returns moves by at most that much on every way round
     uc = prog.fn("_cbor_unicode_codepoint_count")
-    lp = loops.classify_loops(prog, uc)
-    okc = len(lp) == 1 and lp[0]["ok"] and lp[0]["kind"].startswith("counted(up")
-    # the counter: a phi of the same header stepped by +1 at most (second counter)
+    import window as W_
     from ir import Inst, Const
-    hdr = lp[0]["header"] if lp else None
-    second = False
-    if hdr is not None:
-        for i_ in hdr.insts:
-            if i_.op == "phi":
-                for v_, pb_ in i_.incoming:
-                    v0 = v_
-                    if isinstance(v0, Inst) and v0.op == "phi":
-                        # count.1 = phi [count+1, then], [count, else]
-                        if all((isinstance(x, Inst) and x.op == "add" and x.operands[0] is i_ and isinstance(x.operands[1], Const) and x.operands[1].v == 1) or x is i_
-                               for x in v0.operands):
-                            second = True
-    if okc and second:
-        chk.ob("C01.frame-invariants", "code point counter advances at most once per iteration of the byte loop (count <= length)", True,
-               "%s:%d" % (uc.file, uc.line), fn=uc.name, key="cpcount")
+    decided = None
+    detail_cp = ""
+    pairs_ = W_.window_pairs(uc)
+    lps_ = uc.loops()
+    if len(pairs_) == 1 and lps_:
+        win = W_.Window(prog, uc, pairs_[0][0], pairs_[0][1], None)
+        win.accesses()
+
+        def step_range(hdr, body, phi):
+            seen = set()
+
+            def rng(v):
+                if v is phi:
+                    return (0, 0)
+                if not isinstance(v, Inst) or v.id in seen:
+                    return None
+                if v.op in ("bitcast", "zext", "sext"):
+                    return rng(v.operands[0])
+                if v.op in ("add", "sub") and isinstance(v.operands[1], Const):
+                    r = rng(v.operands[0])
+                    if r is None:
+                        return None
+                    c_ = v.operands[1].sv if v.operands[1].sv is not None else v.operands[1].v
+                    if c_ >= (1 << 63):
+                        c_ -= 1 << 64
+                    if v.op == "sub":
+                        c_ = -c_
+                    return (r[0] + c_, r[1] + c_)
+                if v.op == "getelementptr" and v.d.get("const_offset") is not None:
+                    r = rng(v.operands[0])
+                    return None if r is None else (r[0] + v.d["const_offset"], r[1] + v.d["const_offset"])
+                if v.op == "phi" and v.block.id in body and v.block is not hdr:
+                    seen.add(v.id)
+                    rs = [rng(x) for x, _pb in v.incoming]
+                    seen.discard(v.id)
+                    if any(r is None for r in rs):
+                        return None
+                    return (min(r[0] for r in rs), max(r[1] for r in rs))
+                return None
+            rs = [rng(v) for v, pb in phi.incoming if pb.id in body]
+            if not rs or any(r is None for r in rs):
+                return None
+            return (min(r[0] for r in rs), max(r[1] for r in rs))
+
+        # the counter: the header phi the returned value comes from on the normal exit
+        rets = [i_ for i_ in uc.all_insts() if i_.op == "ret"]
+
+        def roots(v, acc, depth=0):
+            if depth > 6 or not isinstance(v, Inst):
+                return acc
+            if v.op == "phi":
+                if v.block.id in lps_:
+                    acc.add(v)
+                else:
+                    for x, _pb in v.incoming:
+                        roots(x, acc, depth + 1)
+            return acc
+        counters = set()
+        for r_ in rets:
+            if r_.operands:
+                roots(r_.operands[0], counters)
+        progress = []
+        for hid, body in lps_.items():
+            hdr = uc.bmap[hid]
+            for ph in [i_ for i_ in hdr.insts if i_.op == "phi"]:
+                if ph in counters:
+                    continue
+                cl_ = win.cls(ph)
+                sr = step_range(hdr, body, ph)
+                if cl_ is None or sr is None:
+                    continue
+                st_ = win.inn.get(hid, {}).get(cl_[1], (None, None))
+                inside = st_[0] is not None         # never beyond the end of the window / never wrapped
+                moves = min(abs(sr[0]), abs(sr[1])) if (sr[0] >= 1 or sr[1] <= -1) else 0
+                if cl_[0] == "R":
+                    moves = moves if sr[1] <= -1 else 0
+                else:
+                    moves = moves if sr[0] >= 1 else 0
+                if inside and moves >= 1:
+                    progress.append((hid, ph, moves))
+        if len(counters) == 1 and progress:
+            cph = next(iter(counters))
+            body = lps_[cph.block.id]
+            cr = step_range(cph.block, body, cph)
+            mv = min(m for h_, _ph, m in progress if h_ == cph.block.id) if any(h_ == cph.block.id for h_, _ph, _m in progress) else None
+            init_ok = all(isinstance(v, Const) and v.v == 0 for v, pb in cph.incoming if pb.id not in body)
+            if cr is not None and mv is not None and init_ok:
+                decided = cr[0] >= 0 and cr[1] <= mv
+                detail_cp = "" if decided else "the counter moves by up to %d on a way round the loop on which only %d byte(s) are consumed" % (cr[1], mv)
+    if decided is None:
+        chk.floor("C01.frame-invariants", "recognised shape of the code point counting loop (cannot decide count <= length)", 0, 1)
     else:
-        # a counter stepped by a constant other than 1 is a violation; any other shape cannot be decided here
-        big = False
-        for i_ in uc.all_insts():
-            if i_.op == "add" and isinstance(i_.operands[1], Const) and 1 < i_.operands[1].v < (1 << 63) and \
-                    any(u.op == "phi" for u in uc.users(i_)) and i_.type == "i64" and isinstance(i_.operands[0], Inst) and i_.operands[0].op == "phi":
-                big = True
-        if big:
-            chk.ob("C01.frame-invariants", "code point counter advances at most once per iteration of the byte loop (count <= length)", False,
-                   "%s:%d" % (uc.file, uc.line), fn=uc.name, key="cpcount", detail="a counter of the byte loop is stepped by more than 1")
-        else:
-            chk.floor("C01.frame-invariants", "recognised shape of the code point counting loop (cannot decide count <= length)", 0, 1)
+        chk.ob("C01.frame-invariants", "code point counter advances at most once per byte consumed by the loop (count <= length)", decided,
+               "%s:%d" % (uc.file, uc.line), fn=uc.name, key="cpcount", detail=detail_cp)
 
     # 7d. shifts by a run-time distance stay inside the operand's width (no undefined behaviour in value computations)
     chk.rule("C01.shift-range", "every shift whose distance is not a constant has a distance below the operand's bit width on every "
@@ -368,6 +453,15 @@ def run(ctx, chk):
     chk.rule("C01.slot-reads", "every loop that reads the slot table of a container (copy, describe, size, serialize, release) is bounded "
              "by the element count, never by the capacity: slots beyond the count hold whatever the allocator returned")
     _r1.check_slot_reads_below_count(chk, "C01.slot-reads", prog, eff)
+    chk.rule("C01.window-reads", "every read through a (byte pointer, length) parameter pair - the code point counter walking a text payload, the "
+             "builders copying a payload out of the caller's buffer, a window handed on to a callee - lies inside the window on every path "
+             "(forward dataflow over lock-step congruence classes of cursors, indices and remaining-counts; lib/window.py)")
+    import rules as _rw
+    _rw.check_window(chk, "C01.window-reads", prog, {"r"}, 8, "verif_ctl_window_read")
+    chk.rule("C01.payload-reads", "every read of a string's payload byte at a computed index (describe, and whoever else reads the data block of "
+             "an item directly) lies below the item's length on that path - also for the empty string a zero-length head decodes into")
+    import rules as _rpr
+    _rpr.check_payload_reads(chk, "C01.payload-reads", prog, eff)
     chk.rule("C01.signed-shift", "every left shift whose (promoted) left operand has a signed type keeps the operand's set bits below the sign "
              "bit: operand width + distance <= 31 for int (decided on the clang AST, where the promotion is visible; no undefined behaviour while decoding: the byte loaders and the half decoder shift promoted bytes)")
     import ast_rules as _ar
